@@ -29,7 +29,7 @@ func init() {
 			ruleV7(c)   // Copy() builds the staged and collected resources through the optional constructors: they must hold exactly what they are given (nil stays unset)
 			ruleR2R3(c) // single owner per field: each claim checks and records in the same ledger slot
 		},
-		explanation: "Decides the collection structure of container updates: one accumulator per target (the hit path returns the stored one; allocation, registration and the append to the reply list are on the miss path, the append additionally excluded for the request's own container, which the response getter appends last); an update of the container being created is rejected before any effect; updateResources stages every change on a Copy() (which shares nothing with the original), claims before each staged write, is driven only by the plugin's own update for every resource field, and commits to the accumulator/request only after the last claim so that a failing (ignored) update contributes nothing; the only error that may be dropped is updateResources' under the update's IgnoreFailure flag, and an accumulator's flag is the conjunction of its contributors'; apply routes every response's updates to the merge and the getters return exactly the accumulators. Staged maps are created only when nil.",
+		explanation: "Decides the collection structure of container updates: one accumulator per target (the hit path returns the stored one; allocation, registration and the append to the reply list are on the miss path, the append additionally excluded for the request's own container, which the response getter appends last); an update of the container being created is rejected before any effect; updateResources stages every change on a Copy() (which shares nothing with the original), claims before each staged write, is driven only by the plugin's own update for every resource field, and commits to the accumulator/request only after the last claim so that a failing (ignored) update contributes nothing; the only error that may be dropped is updateResources' under the update's IgnoreFailure flag, and an accumulator's flag is the conjunction of its contributors'; apply routes every response's updates to the merge and the getters return exactly the accumulators. Staged maps are created only when nil. Each claim checks and records in the same ledger slot; the optional constructors keep nil as nil.",
 		notDecided: []string{
 			"contents of the returned list as values",
 			"that claims made by an ignore-failure update before its conflicting field stay in the ledger after the update is dropped (observation, not claimed either way)",
